@@ -54,7 +54,7 @@ def plan(tier, seed):
             d = lops.gen_leaf(rng, kind, None, 34)
             if d is None:
                 continue
-            P.add("big:" + kind, desc=d, dt=_dtype(rng), mag=pick(rng, [1, 1, 1e-8, 1e8]))
+            P.add("big:" + kind, desc=d, dt=_dtype(rng), mag=pick(rng, [1, 1, 1e-10, 1e8]))
     rng = P.rng("tree")
     for i in range(ntrees):
         depth = int(rng.integers(1, 4 if tier == "quick" else 5))
